@@ -126,6 +126,11 @@ def main(tier):
         for act in ("qint8", "qfloat8"):
             for dtype in ("float32", "float16", "bfloat16"):
                 mods.append({"kind": "calib", "weights": rng.choice(["qint8", "qint4", "qfloat8"]), "activations": act, "dtype": dtype, "batches": batches, "in": 16, "out": 8})
+    # a dead producer feeding a consumer with another activation qtype (both called directly), calibrated then run
+    for a1, a2 in (("qint8", "qfloat8"), ("qfloat8", "qint8"), ("qint8", "qint8")):
+        for dtype in ("float32", "float16", "bfloat16"):
+            for stream in (True, False):
+                mods.append({"kind": "dead_chain", "weights": rng.choice(["qint8", "qint4", "qfloat8"]), "activations": a1, "consumer_activations": a2, "dtype": dtype, "in": 16, "out": 8, "streamline": stream})
     mres = ck.impl("modfin", {"cases": mods, "seed": ck.seed}, timeout=1800)
     if isinstance(mres, dict):
         ck.violation("module worker crashed: " + mres.get("stderr", "")[-400:], {"stderr": mres.get("stderr")})
@@ -136,6 +141,9 @@ def main(tier):
             if not r["ok"]:
                 ck.violation(f"{c['kind']} raised {r['exn']}: {r.get('msg')}", {"module": c, "exception": r})
                 continue
+            if c["kind"] == "dead_chain" and not (r["finite"] and r["equals_bias"]):
+                ck.violation("a dead (all-zero) producer feeding a consumer with another activation qtype: after calibration the consumer does not output exactly its bias"
+                             + (" (NaN / Inf: NaN code / zero scale)" if not r["finite"] else ""), {"module": c, "observed": r})
             if c["kind"] == "zero_layer" and not r["equals_bias"]:
                 ck.violation("a layer whose weights are all zero does not output exactly its bias", {"module": c, "observed": r})
             if c["kind"] == "calib" and not (r["scales_finite"] and r["output_finite"]):
